@@ -4,7 +4,7 @@ Step B: implementation (Tag / TagAttrDict / consolidate_attrs from /repo) vs the
 Coq model (Model/Attrs.v) on the same argument lists and operation sequences, compared after
 every step.  Step C: the implementation vs the extracted Coq specification
 (Spec/AttrsSpec.v: attrs_of_call, replace_merge) on every case, and vs an independent Python
-transcription of the property text on the cases whose values are all plain."""
+transcription of the property text on the cases without unsupported values."""
 from __future__ import annotations
 
 import itertools
@@ -175,7 +175,8 @@ def values_in(case):
 
 
 def is_plain(case):
-    return all(v[0] not in ("H", "X") for v in values_in(case))
+    """within reach of the Python transcription of the property text: no unsupported value"""
+    return all(v[0] != "X" for v in values_in(case))
 
 
 def case_kind(case):
@@ -251,31 +252,44 @@ def dec_trace(t):
     return [[dec_attrs(r[0]), (r[1][0] if r[1] else 0)] for r in t]
 
 
-# ---- independent Python transcription of the property text (plain values only) -----------
+# ---- independent Python transcription of the property text (no unsupported values) -------
 def py_spec_name(x: str) -> str:
     body = x[:len(x) - 1] if x[-1:] == "_" else x       # one trailing underscore removed
     return "".join("-" if c == "_" else c for c in body)  # remaining underscores -> hyphens
 
 
+ATTR_MAP = {"&": "&amp;", "<": "&lt;", ">": "&gt;", '"': "&quot;", "'": "&apos;",
+            "\r": "&#13;", "\n": "&#10;"}
+
+
+def py_attr_escape(s: str) -> str:
+    return "".join(ATTR_MAP.get(c, c) for c in s)
+
+
 def py_spec_value(v):
-    """None/False dropped (returns None), True as empty string, numbers as text"""
+    """None/False dropped (returns None), True as empty string, numbers as text;
+    returns (mark, text) with mark 1 for HTML"""
     k = v[0]
     if k == "N" or (k == "B" and not v[1]):
         return None
     if k == "B":
-        return ""
+        return (0, "")
     if k == "I":
-        return str(int(v[1]))
+        return (0, str(int(v[1])))
     if k == "F":
-        return str(float(v[1]))
+        return (0, str(float(v[1])))
+    if k == "H":
+        return (1, v[1])
     assert k == "S"
-    return v[1]
+    return (0, v[1])
 
 
 def py_spec_call(dicts, kw):
     """all values given for the same normalised name within one call joined by single
     spaces in argument order (positional dicts left to right, then keywords), attributes
-    ordered by first appearance"""
+    ordered by first appearance.  If one of the values of a name is HTML the result is HTML
+    and the plain ones are escaped as attribute text (so that what is finally written
+    between the quotes is each plain value escaped once, each HTML value verbatim)."""
     pairs = []
     for d in list(dicts) + [kw]:
         for k, v in d:
@@ -286,7 +300,14 @@ def py_spec_call(dicts, kw):
     for n, _ in pairs:
         if n not in order:
             order.append(n)
-    return [[n, 0, " ".join(t for m, t in pairs if m == n)] for n in order]
+    out = []
+    for n in order:
+        vals = [t for m, t in pairs if m == n]
+        if any(mark for mark, _ in vals):
+            out.append([n, 1, " ".join(t if mark else py_attr_escape(t) for mark, t in vals)])
+        else:
+            out.append([n, 0, " ".join(t for _, t in vals)])
+    return out
 
 
 def py_spec_apply(state, new):
@@ -417,7 +438,7 @@ def check_scenarios(ctx: Ctx, name: str, cases: list) -> None:
         # step C: Coq specification (all value kinds)
         if sv != iv:
             ctx.violation(spec_diff_message(c, iv, sv), c, {"impl_output": iv, "expected": sv})
-        # step C: Python transcription of the property text (plain values)
+        # step C: Python transcription of the property text (str / HTML / numbers / bool / None)
         if is_plain(c):
             pv = py_spec_scenario(c)
             if pv != iv:
@@ -585,11 +606,12 @@ def run(ctx: Ctx) -> None:
             ctx.violation("consolidate_attrs: invalid child handled differently from direct construction",
                           repr(badchild), {"impl_output": repr(r), "expected": repr(d)})
 
-    # ---- recorded observation (subject of C03, not judged here) --------------------------------------
+    # ---- recorded observation: the mixed str/HTML merge as rendered (judged by C03) ------------------
     t = safe_call(lambda: Tag("div", {"class": 'a"b'}, class_=HTML("x")).get_html_string())
     ctx.extra["observation_mixed_merge_render"] = {
         "input": "Tag('div', {'class': 'a\"b'}, class_=HTML('x'))", "rendered": t[1] if t[0] == "ok" else repr(t),
-        "note": "plain operand of a str/HTML merge is escaped with the text table only; judged by C03"}
+        "note": "plain operand of a str/HTML merge is escaped with the ATTRIBUTE table before merging "
+                "(repaired TagAttrDict.update); expected <div class=\"a&quot;b x\"></div>; judged by C03"}
 
 
 def replay(ctx: Ctx, path: str) -> None:
